@@ -59,6 +59,7 @@ def main():
     props = None
     allc = False
     jobs = 0
+    base = "seeded"
     ids = []
     while args:
         a = args.pop(0)
@@ -70,10 +71,12 @@ def main():
             allc = True
         elif a == "--jobs":
             jobs = int(args.pop(0))
+        elif a == "--benign":       # behaviour-preserving changes in /verif/benign/<id>/patch.diff: every check must exit 0
+            base, allc = "benign", True
         else:
             ids.append(a)
     claimed = [c["property_id"] for c in json.loads((VERIF / "MANIFEST.json").read_text())["checks"]]
-    dirs = sorted(d for d in (VERIF / "seeded").iterdir() if d.is_dir() and not d.name.startswith("_")
+    dirs = sorted(d for d in (VERIF / base).iterdir() if d.is_dir() and not d.name.startswith("_")
                   and (not ids or any(d.name.startswith(i) for i in ids)))
     results = {}
     if jobs:
@@ -110,7 +113,21 @@ def main():
             sh("git -C /repo checkout -- .")
     if not jobs:
         assert sh("git -C /repo status --porcelain").stdout.strip() == "", "repo not clean after run"
-    if not ids and not props:
+    if base == "benign":
+        lines = ["# Behaviour-preserving changes vs. the registered checks (harness/mutants.py --benign, tier %s)" % tier, "",
+                 "Every (change, check) pair must end with exit 0 (DRIFT lines are allowed: the specification is precise about",
+                 "internal steps; VIOLATION or exit 2 is a false alarm / fragility of the machinery).", "",
+                 "| change | check | exit |", "|---|---|---|"]
+        for (name, p), (rc, clause) in sorted(results.items()):
+            lines.append(f"| {name} | {p} | {rc} |")
+        okc = sum(1 for v in results.values() if v[0] == 0)
+        lines += ["", f"{okc} of {len(results)} pairs end with exit 0."]
+        old = (VERIF / "benign" / "RESULTS.md")
+        if ids or props:
+            print("\n".join(lines))
+        else:
+            old.write_text("\n".join(lines) + "\n")
+    elif not ids and not props:
         lines = ["# Seeded changes vs. the registered checks (last full run of harness/mutants.py, tier %s)" % tier, "",
                  "| change | check | exit | first VIOLATION clause |", "|---|---|---|---|"]
         for (name, p), (rc, clause) in sorted(results.items()):
